@@ -43,6 +43,19 @@ func (e *Engine) runIntrinsic(g *Goroutine, name string, fn *ssa.Function, args 
 			return e.zeroResults(fn), true
 		}
 		return nil, true
+	case strings.HasPrefix(name, "symerr:"):
+		e.stub(name)
+		res := e.zeroResults(fn)
+		fail := e.Choose("$err:"+fn.Name(), 2) == 1
+		var errv Value = Iface{}
+		if fail {
+			errv = e.mkError("stubbed failure of " + fn.Name())
+		}
+		if t, ok := res.(Tuple); ok {
+			t[len(t)-1] = errv
+			return t, true
+		}
+		return errv, true
 	case strings.HasPrefix(name, "vapi:"):
 		return e.vapi(g, name[5:], args, fn)
 	}
